@@ -23,6 +23,9 @@ type Scenario struct {
 	Third          []string // optional third branch
 	Prefix         []string // actions applied to the base room before the fork
 	ThirdFromBase  bool     // the third branch forks off the base room, before the prefix
+	// Reject, when > 0, marks the event with that creation sequence number as rejected for the caller's rejected-event
+	// oracle (IsRejected): the fallback to an event's own auth events must skip it
+	Reject int `json:",omitempty"`
 }
 
 type Built struct {
@@ -81,6 +84,10 @@ func Build(sc Scenario) *Built {
 		sigs = append(sigs, strings.Join(names, ";"))
 	}
 	sort.Strings(sigs)
+	if sc.Reject > 0 && sc.Reject < len(h.Order) {
+		h.Order[sc.Reject].Rejected = true
+		sigs = append(sigs, fmt.Sprint("reject#", sc.Reject))
+	}
 	return &Built{H: h, Sets: sets, All: h.Order, Sig: strings.Join(sc.Prefix, ";") + fmt.Sprint(sc.ThirdFromBase) + ">>" + strings.Join(sigs, "||")}
 }
 
